@@ -334,6 +334,17 @@ def generate(rng, tier):
             continue
         for kind, c in corruptions(rng, d, per):
             add(c, {"stream": "corruption", "kind": "corrupt/" + kind})
+    # a separator too many before a closing bracket (SepBy must not end with a separator)
+    k = 0
+    for d in valid:
+        spots = [j for j in range(len(d)) if d[j:j + 1] in (b"]", b"}") and d[:j].rstrip(b" \t\r\n")[-1:] not in (b"[", b"{", b"")]
+        if not spots:
+            continue
+        j = rng.choice(spots)
+        add(d[:j] + rng.choice([b",", b", ", b" ,"]) + d[j:], {"stream": "corruption", "kind": "corrupt/trailing-comma"})
+        k += 1
+        if k >= (120 if quick else 1500):
+            break
     return out
 
 
